@@ -119,6 +119,23 @@ def check_estimators(prog, rep):
     construct = f.qualname
     vn0 = VN(prog, f)
     done = set()
+    # roles: the ploidy local, the dosage local, the result handed to cls(mat=...)  (never by the names they happen to have)
+    gp = f.params()[1] if len(f.params()) > 1 else "gmat"
+    fasg = {}
+    for n_ in walk_no_nested(f.node):
+        if isinstance(n_, ast.Assign) and len(n_.targets) == 1 and isinstance(n_.targets[0], ast.Name):
+            fasg.setdefault(n_.targets[0].id, []).append(n_.value)
+    PL = {k for k, vs in fasg.items() if any("".join(dump(v).split()) == "%s.ploidy" % gp for v in vs)} | {"%s.ploidy" % gp}
+    XN = [k for k, vs in fasg.items() if any("".join(dump(v).split()).startswith("%s.tacount(" % gp) for v in vs)]
+    ctor_ = [c_ for c_ in walk_no_nested(f.node) if isinstance(c_, ast.Call) and dump(c_.func) == "cls"]
+    MN = None
+    if len(ctor_) == 1:
+        mk = kwargs_of(ctor_[0])[0].get("mat")
+        MN = mk.id if isinstance(mk, ast.Name) else None
+    if MN is None or len(XN) != 1:
+        rep.unrec("R1-estimators", construct, "roles not found (dosage local %s, result local %s)" % (XN, MN))
+        return
+    XN = XN[0]
     try:
         for st in body_nodoc(f.node):
             if isinstance(st, ast.Expr):
@@ -128,14 +145,14 @@ def check_estimators(prog, rep):
                 while node is not None:
                     t = node.test
                     pl = None
-                    if isinstance(t, ast.Compare) and dump(t.left) in ("ploidy", "gmat.ploidy") and isinstance(t.comparators[0], ast.Constant):
+                    if isinstance(t, ast.Compare) and dump(t.left) in PL and isinstance(t.comparators[0], ast.Constant):
                         pl = t.comparators[0].value
                     if pl in MOLECULAR:
                         sub = VN(prog, f, env=dict(vn0.env))
                         for s in node.body:
                             sub.stmt(s)
-                        got = sub.env.get("mat")
-                        Xsym = vn0.env.get("X")
+                        got = sub.env.get(MN)
+                        Xsym = vn0.env.get(XN)
                         r = VN(prog, f, env={"X": Xsym}).expr(ast.parse(MOLECULAR[pl], mode="eval").body)
                         if got == r:
                             rep.ok("R1-estimators", construct + "#ploidy%d" % pl, "molecular coancestry (ploidy %d) == %s" % (pl, MOLECULAR[pl]))
